@@ -356,6 +356,11 @@ def propagation(case, ctx):
             ("index-all-false-mask", 'carry', lambda a: a.take(np.zeros(n, dtype=bool), axis=d), d),
             ("index-loc-dict", 'carry', lambda a: a.loc[{d: some}], d),
             ("take_axis", 'carry', lambda a: a.take_axis(some, axis=d), d),
+            # cross-sections handed out by the iteration protocols (0-d results are scalars and are not looked at)
+            ("index-iter(axis)", 'carry', lambda a: list(a.iter(d))[-1][1], None),
+            ("index-for-sub-in-a", 'carry', lambda a: [sub for sub in a][0], None),
+            ("index-to_list", 'carry', lambda a: a.to_list(d)[0], None),
+            ("index-to_dataset-item", 'carry', lambda a: a.to_dataset(d)[a.axes[d].values[0]] if a.ndim > 1 else None, None),   # (1-D: the items are scalars)
             ("compress_axis", 'carry', lambda a: a.compress_axis(mask, axis=d), d),
             ("reindex_axis", 'carry', lambda a: a.reindex_axis(some + absent(), axis=d), d),
             ("reindex_axis-self", 'carry', lambda a: a.reindex_axis(list(lab), axis=d), d),
